@@ -186,13 +186,22 @@ def check(run, views, tier, with_ops=True):
                     if s[0] == "closure":
                         cps = closure_paths(b, s)
                         # the filter must be exactly `tag != OperationAttributes`: every other group is emitted, empty or not
-                        if len(cps) == 1 and cps[0].ret[0] == "bin" and cps[0].ret[1] == "Ne":
-                            sides = [cps[0].ret[2], cps[0].ret[3]]
+                        fr = cps[0].ret if len(cps) == 1 else None
+                        if fr is not None and fr[0] == "un" and fr[1] == "Not" and fr[2][0] == "bin" and fr[2][1] == "Eq":
+                            fr = ("bin", "Ne", fr[2][2], fr[2][3])       # !(a == b)
+                        if fr is not None and fr[0] == "bin" and fr[1] == "Ne":
+                            sides = [fr[2], fr[3]]
                             if ("ctor", OP, []) in sides and any(is_call(x, "ipp::attribute::IppAttributeGroup::tag") or (x[0] == "field" and x[2] == "tag") for x in sides):
                                 excl = True
                 run.ob("R-GROUPS", "other-groups loop emits every group except the operation group", excl,
                        "loop over %s: the filter is not exactly `tag != OperationAttributes` (the operation group would be emitted twice, or other groups dropped)" % tshow(g.iter)[:160], site(b),
                        key="R-GROUPS|%s|exclude-op" % FN)
+                # ... in message order: the loop runs directly over the filtered group list, nothing regroups or reorders it
+                outer = [x[1] for x in subterms(g.iter) if x[0] == "call"]      # closure bodies (the filter predicate) are judged above
+                extra = sorted(c for c in outer if c.split("::")[-1] not in ("filter", "iter", "into_iter", "groups", "deref", "as_slice", "as_ref", "by_ref"))
+                run.ob("R-GROUPS", "other groups are emitted in message order", not extra,
+                       "the group loop runs over %s: %s regroup or reorder the message's groups (decoding the output no longer gives the message that was encoded)" % (
+                           tshow(g.iter)[:140], [c.split("::")[-1] for c in extra]), site(b), key="R-GROUPS|%s|message-order|%s" % (FN, ",".join(c.split("::")[-1] for c in extra)))
                 for conds, bevs, _k in g.bodies:
                     fe = bevs[0] if bevs else None
                     ok = fe is not None and fe.tag == "put" and fe.kind == "u8" and fe.value[0] == "cast" and \
